@@ -515,6 +515,40 @@ func runC25(c *Ctx) {
 		c.Check(nSites >= 2, r5, "ComputeShardMetadata call sites inventoried", token.NoPos, fmt.Sprintf("%d", nSites), fmt.Sprintf("only %d", nSites), nil)
 	}
 
+	r6 := c.Rule("R6", "a shard of the wrong length is a damaged shard, not a failed read: when the first reconstruction (missing shards only) fails, Decode can still reach the checksum-guided pass, which nulls the shards whose checksum does not match and reconstructs them - not every failure of the first pass returns", 2)
+	{
+		fdec := w.Fn("fs/erasure.Erasure.Decode")
+		gdec := w.G(fdec)
+		c.Analysed(fdec)
+		first := gdec.callNodes("fs/erasure.Erasure.reconstructMissingShards")
+		second := gdec.Find(calls("fs/erasure.Erasure.detectBadShardsThenReconstruct"))
+		c.Check(len(first) == 1 && len(second) >= 1, r6, "Decode: two reconstruction passes present", fdec.Decl.Pos(), "reconstructMissingShards then detectBadShardsThenReconstruct", "passes missing", nil)
+		if len(first) == 1 && len(second) >= 1 {
+			rv := gdec.lhsVarOfCall(first[0].n, first[0].cs, 0)
+			errF := w.Field("fs/erasure", "DecodeResult", "Error")
+			dinfo := fdec.Pkg.TypesInfo
+			failTests := gdec.condNodes(func(e ast.Expr) bool {
+				be, ok := e.(*ast.BinaryExpr)
+				return ok && be.Op == token.NEQ && fieldOfSelector(dinfo, be.X) == errF && rv != nil && mentionsObj(dinfo, be.X, rv) && isNilLit(dinfo, be.Y)
+			})
+			reach := false
+			if len(failTests) > 0 {
+				r := gdec.Reach(branchStarts(failTests, 1), nil, nil)
+				for _, x := range second {
+					if r.Seen[x.ID] {
+						reach = true
+					}
+				}
+			}
+			pos := fdec.Decl.Pos()
+			if len(failTests) > 0 {
+				pos = failTests[0].Ast.Pos()
+			}
+			c.Check(len(failTests) == 0 || reach, r6, "Decode: a failed first pass can fall through to the checksum-guided pass", pos, "detectBadShardsThenReconstruct reachable from the failure of reconstructMissingShards",
+				"every failure of the first reconstruction returns: one shard file truncated mid-payload (longer than its header, shorter than its siblings) makes the library report `shard sizes do not match` and the whole read fails although a single shard is damaged and parity is available - the checksum-guided pass, which would null and rebuild that shard, is never reached", nil)
+		}
+	}
+
 	r4 := c.Rule("R4", "checksum detection examines every shard, discards only on mismatch, and a failed final verification is an error", 4)
 	{
 		g := w.G(fDet)
